@@ -7,6 +7,15 @@ HOOK_COMMITS = ["6e51e51"]
 
 # id -> (ready, category, technique, level text, level note, design ref)
 CHECKS = {
+    "C01": dict(ready=True, category="exploration", technique="runtime monitoring: offline checker (independent solution replayer O1) over recorded end-to-end solver outputs on generated problems x configs x thread layouts, panic monitor",
+        text="Every solution returned by the real solver (CLI JSON-config path) on several hundred (quick) to tens of thousands (thorough) generated valid problems x generated solver configurations is replayed by an oracle written from the documentation only; each documented hard rule is evaluated per tour and the evidence lists how often each rule was evaluated and binding. Exploration is the right level: the quantifier ranges over inputs x configurations x schedules, which only workload diversity can sample.",
+        note="Trusts O1 (harness/src/replay.rs) and the generator's validity; required breaks, recharge, clustering, time-dependent matrices are outside the workload; solver not seed-replayable (replay re-runs the oracle on recorded documents).", design_ref="DESIGN.md §3 C01"),
+    "C02": dict(ready=True, category="exploration", technique="runtime monitoring: conservation checker (offline, over recorded solver outputs) - plan jobs = assigned (+) unassigned as exact multiset partition",
+        text="Conservation oracle of O1 over the same kind of recorded end-to-end runs, biased to multi-task jobs, reload markers, breaks and many routes: every plan job exactly once (all tasks, one tour, pickups first) or once in unassigned with a reason; tours name existing vehicle shifts, one tour per shift, every tour serves a job; break/reload stops matched injectively to the shift's own definitions.",
+        note="Trusts O1's activity matching (job id, task type, location, tag); clustering/required breaks/recharge outside the workload.", design_ref="DESIGN.md §3 C02"),
+    "C03": dict(ready=True, category="exploration", technique="runtime monitoring: replay oracle recomputing schedule/load/distance/statistics/cost from routing data and visiting order, compared with every reported number",
+        text="O1 replays each tour of each recorded solution from (visiting order, first departure): stop arrival/departure within the one-unit output rounding, per-stop load and cumulative distance exactly, tour and overall statistics, cost = fixed + distance*cd + duration*ct, and that the reported place tag belongs to a place explaining the reported interval.",
+        note="Integral matrices/durations; fractional profile scale widens the per-leg split tolerance; tours with transit stops/commute only per-stop consistency (not generated).", design_ref="DESIGN.md §3 C03"),
 }
 
 NOT_YET = "check not built yet in this round (planned as a runtime monitor, see DESIGN.md §3)"
